@@ -627,9 +627,20 @@ type w2state struct {
 	acquired []atomic.Int64
 	viol     sync.Map // sig -> what
 	refused  atomic.Int64
+	start    time.Time
+	late     atomic.Bool
 }
 
-func (s *w2state) violate(sig, what string) { s.viol.LoadOrStore(sig, what) }
+// violate records a stress violation — unless half a TTL has already gone by on this state's clock
+// (a hopelessly slow host, or the bubble's bail-out sleeps): from then on a TTL may legitimately
+// have fired, so nothing is concluded any more.
+func (s *w2state) violate(sig, what string) {
+	if time.Since(s.start) > w2TTLms/2*time.Millisecond {
+		s.late.Store(true)
+		return
+	}
+	s.viol.LoadOrStore(sig, what)
+}
 
 // hammer is one caller of the stress workload. cancelMode: "timeout" (real time) or "helper" (a
 // second goroutine cancels after a few yields; usable in a bubble where time stands still).
@@ -683,7 +694,7 @@ func (s *w2state) finalCheck(p w2params, phase string) {
 }
 
 func newW2state(keys int) *w2state {
-	return &w2state{inside: make([]atomic.Int32, keys), shared: make([]int64, keys), acquired: make([]atomic.Int64, keys)}
+	return &w2state{inside: make([]atomic.Int32, keys), shared: make([]int64, keys), acquired: make([]atomic.Int64, keys), start: time.Now()}
 }
 
 func runW2(t *testing.T, c *rig.Check, sp w2spec) {
@@ -780,6 +791,9 @@ func report(c *rig.Check, s *w2state, p w2params, sp w2spec) {
 	}
 	c.Count("w2_critical_sections", acq)
 	c.Count("w2_cancelled_waits", s.refused.Load())
+	if s.late.Load() {
+		c.Inconclusive("w2: half a TTL elapsed during the round, later observations discarded")
+	}
 	s.viol.Range(func(k, v any) bool {
 		c.Violate(k.(string), v.(string), map[string]any{"w2": sp, "params": p})
 		return true
